@@ -275,7 +275,8 @@ PROPS["C20"] = dict(
     modules=["common", "hdrs", "c03", "c02", "c05", "c20"],
     contracts=["wsgi.ensure_next", "wsgi.NextResponse.from_app", "Headers.__init__", "Headers.__init__[mapping]",
                "asgi.CachedStream.push", "asgi.CachedStream.push_eof", "asgi.CachedStream.__anext__",
-               "asgi.NextResponse.from_app.send", "asgi.NextResponse.render_stream", "asgi.StreamingResponse.__call__"],
+               "asgi.NextResponse.from_app.send", "asgi.NextResponse.render_stream", "asgi.StreamingResponse.__call__",
+               "wsgi.middleware.wsgi", "wsgi.decorator.view", "asgi.decorator.view"],
     refute={"quick": [2], "thorough": [1, 2, 3]},
     native="c20",
     level="other",
@@ -291,7 +292,11 @@ PROPS["C20"] = dict(
                "(from_app.<locals>.send) takes, for EVERY message, the status and the header list from a start message and "
                "appends the body of a body message to the cached stream, closing it exactly when more_body is absent/false; "
                "CachedStream.push / push_eof / __anext__ keep 'content == everything pushed', and NextResponse.render_stream "
-               "(an iterator-protocol loop with invariant) re-emits exactly the cached bytes; Headers.__init__ keeps every header name that occurs once with its value (names occurring several times "
+               "(an iterator-protocol loop with invariant) re-emits exactly the cached bytes; the WSGI wrapper that "
+               "middleware(handler)(app) returns, with an identity handler, runs the inner application exactly once (from_app "
+               "through its contract), calls the response it built exactly once and forwards its status and header mapping; "
+               "the view wrappers of both `decorator` helpers run the inner view once with the same request and return its "
+               "response; Headers.__init__ keeps every header name that occurs once with its value (names occurring several times "
                "are folded - the known finding); the ASGI StreamingResponse.__call__ that re-emits the relayed body is legal at "
                "every emission (from C05). BOUNDED (labelled): capture of status/headers, CachedStream, decorator/middleware "
                "wrappers and whole identity stacks of depth 0..3 over every response class and raw applications are compared "
